@@ -5620,4 +5620,687 @@ theorem lexS_spec {d : TokenDef} (hw : wf d = true) (hwl : wfLayout d = true) : 
           obtain ⟨_, _, hpos, _, _, _⟩ := hspec
           exact .cons hne (step_spec hw hwl hne hs) (lexS_spec hw hwl n _ _ (by simp; omega) hr)
 
+/-! ### the specification determines the token sequence (spec ⊆ lex) -/
+
+/-- where an unterminated literal ends: right after the last occurrence of the closing sequence at or after the body start
+    (all of them are escaped), or at the body start when there is none -/
+def UntermEnd (src close : Str) (body E : Nat) : Prop :=
+  (E = body ∧ ∀ j, body ≤ j → ¬ occursAt src close j) ∨
+  (∃ idx, body ≤ idx ∧ occursAt src close idx ∧ (∀ j, idx < j → ¬ occursAt src close j) ∧ E = idx + 1)
+
+theorem occursAt_lt {src close : Str} (hc : 0 < close.length) {j : Nat} (h : occursAt src close j) : j < src.length := by
+  obtain ⟨_, h2⟩ := h
+  have := startsWith_length _ _ h2
+  simp at this; omega
+
+theorem quoteLoop_unterm {src close : Str} (hc : 0 < close.length) (body : Nat) (hno : ∀ j, ¬ IsCloser src close body j) :
+    ∀ (fuel e E : Nat), body ≤ e → e ≤ src.length → src.length - e ≤ fuel → quoteLoop src close body fuel e = .ok E →
+    (E = e ∧ ∀ j, e ≤ j → ¬ occursAt src close j) ∨
+    (∃ idx, e ≤ idx ∧ occursAt src close idx ∧ (∀ j, idx < j → ¬ occursAt src close j) ∧ E = idx + 1)
+  | fuel, e, E, hbe, hel, hf, h => by
+    unfold quoteLoop at h
+    split at h
+    · rename_i hlt
+      cases fuel with
+      | zero => omega
+      | succ f =>
+        simp only [] at h
+        cases hfind : findFrom src close e with
+        | none =>
+          rw [hfind] at h
+          simp only [Except.ok.injEq] at h; subst h
+          exact Or.inl ⟨rfl, findFrom_none_spec hel hfind⟩
+        | some idx =>
+          rw [hfind] at h
+          simp only [] at h
+          obtain ⟨hocc, hei, _⟩ := findFrom_spec hfind
+          have hb := findFrom_bound hfind
+          have hrun : escapeRun src body idx (idx + 1) 0 = bsRun (slice src body idx) := by
+            rw [escapeRun_eq src body idx (by omega) (idx + 1) 0 (by omega) (by omega)]; simp
+          by_cases hesc : escapeRun src body idx (idx + 1) 0 % 2 = 1
+          · simp only [hesc, ↓reduceIte] at h
+            have := quoteLoop_unterm hc body hno f (idx + 1) E (by omega) (by omega) (by omega) h
+            right
+            cases this with
+            | inl h1 => exact ⟨idx, hei, hocc, fun j hj => h1.2 j (by omega), h1.1⟩
+            | inr h1 =>
+              obtain ⟨i2, a1, a2, a3, a4⟩ := h1
+              exact ⟨i2, by omega, a2, a3, a4⟩
+          · exfalso
+            exact hno idx ⟨by omega, hocc, by rw [← hrun]; omega⟩
+    · simp only [Except.ok.injEq] at h; subst h
+      exact Or.inl ⟨rfl, fun j hj ho => by have := occursAt_lt hc ho; omega⟩
+
+theorem parseQuote_unterm {d : TokenDef} (hw : wf d = true) {s : Str} {e : Nat} {t : Token} {p : Str × Str}
+    (h : parseQuote d s 0 = .ok (e, t)) (hf : firstOpen d.quote s 0 = .ok p) (hno : ∀ j, ¬ IsCloser s p.2 p.1.length j) :
+    UntermEnd s p.2 p.1.length e := by
+  unfold parseQuote at h
+  rw [hf] at h
+  obtain ⟨hmem, hs⟩ := firstOpen_ok hf
+  have hlen := wf_quote hw hmem
+  have hbound := startsWithAt_bound hs
+  simp only [bind, Except.bind, Nat.zero_add] at h
+  cases hq : quoteLoop s p.2 p.1.length s.length p.1.length with
+  | error er => rw [hq] at h; cases h
+  | ok E =>
+    rw [hq] at h
+    simp only [] at h
+    split at h
+    · cases h
+    · simp only [pure, Except.pure, Except.ok.injEq, Prod.mk.injEq] at h
+      obtain ⟨he, _⟩ := h
+      subst he
+      have := quoteLoop_unterm hlen.2 p.1.length hno s.length p.1.length E (Nat.le_refl _) (by omega) (by omega) hq
+      cases this with
+      | inl h1 => exact Or.inl h1
+      | inr h1 => exact Or.inr h1
+
+/-- type and string of the token of kind `dom` that consumes `e` characters of `s` — the table the lexer follows -/
+def kindOf (d : TokenDef) (dom : Nat) (s : Str) (e : Nat) : Nat × Str :=
+  if dom = Dom.whiteSpace then (if Str.count '\n' (s.take e) = 0 then T.whiteSpace else T.lineBreak, s.take e)
+  else if dom = Dom.number then (if Str.count '.' (s.take e) > 0 then T.decimal else T.digit, s.take e)
+  else if dom = Dom.identifier then (T.name, s.take e)
+  else if dom = Dom.comment then (T.comment, s.take e)
+  else if dom = Dom.quote then (if s.head? = some '/' then T.regexp else T.string, s.take e)
+  else if e ≥ 2 then (T.beginCombine + ((indexOf? (s.take e) d.combinedSymbols).getD 0), s.take e)
+  else
+    let ty := Dom.symbol * 16 + ((indexOf? (s.headD ' ') d.symbol).getD 0)
+    (ty, if ty = T.minus ∧ wsOrEnd d.whiteSpace (s.drop 1) = false then Special.opUnaryMinus else s.take 1)
+
+set_option linter.unusedSimpArgs false
+
+theorem combined_kind {d : TokenDef} {s : Str} {w e : Nat} {t : Token} (h : combined d s 0 w = .ok (some (e, t))) :
+    e = w ∧ t.type = T.beginCombine + ((indexOf? (s.take w) d.combinedSymbols).getD 0) ∧ t.string = s.take w := by
+  refine ⟨combined_end h, ?_⟩
+  unfold combined at h
+  simp only [Nat.zero_add, slice_zero] at h
+  split at h
+  · cases h
+  · split at h
+    · cases h
+    · rename_i off hi
+      cases hty : typeOf d (T.beginCombine + off) with
+      | error er => rw [hty] at h; cases h
+      | ok ty =>
+        rw [hty] at h
+        have := typeOf_ok hty
+        simp only [bind, Except.bind, pure, Except.pure, Except.ok.injEq, Option.some.injEq, Prod.mk.injEq] at h
+        rw [← h.2, hi]; simp [this]
+
+theorem wsOrEnd_drop_one (a : Str) (c : Char) (r : Str) : wsOrEnd a ((c :: r).drop 1) = wsOrEnd a r := rfl
+
+/-- the single-character path of `parse_symbol`, as type and string -/
+theorem minusTail_kind (d : TokenDef) (c : Char) (ty : Nat) (r : Str) {e : Nat} {t : Token}
+    (h : minusTail d c ty (c :: r) = .ok (e, t)) :
+    e = 1 ∧ simplify t = (if wsOrEnd d.whiteSpace r = true then (ty, [c]) else (T.minus, Special.opUnaryMinus)) := by
+  have hv := congrArg (viewR 0) h
+  rw [minus_view] at hv
+  simp only [viewR, Except.map, Except.ok.injEq, Prod.mk.injEq, Nat.sub_zero] at hv
+  refine ⟨hv.1.symm, ?_⟩
+  simp only [simplify]
+  exact hv.2.symm
+
+/-- every sub-parser returns the type and string of the `kindOf` table -/
+theorem parser_kind {d : TokenDef} (hw : wf d = true) {s : Str} (hne : s ≠ []) {dom e : Nat} {t : Token}
+    (hd : analyzeDomain d s 0 = .ok dom) (hp : parser d dom s 0 = .ok (e, t)) : simplify t = kindOf d dom s e := by
+  have hpos : 0 < s.length := List.length_pos_iff.mpr hne
+  have hs := parser_ok hw hpos hd hp
+  unfold parser at hp
+  unfold kindOf
+  by_cases h0 : dom = Dom.whiteSpace
+  · simp only [h0, ↓reduceIte] at hp ⊢
+    have hbs : '\\' ∉ d.whiteSpace := by simp [wf] at hw; exact hw.1.2
+    have hno : '\\' ∉ slice s 0 (0 + spanLen d.whiteSpace s 0) := by
+      intro hm
+      have := spanLen_all d.whiteSpace s 0 _ hm
+      simp at this; exact hbs this
+    have hz := countSubAux_zero '\\' ['\n'] _ 0 hno
+    simp only [Nat.zero_add] at hz
+    unfold parseWhiteSpace at hp
+    simp only [hz, Nat.lt_irrefl, ↓reduceIte, Nat.zero_add] at hp
+    split at hp <;> (rename_i hc; injection hp with hp; injection hp with h1 h2; subst h1 h2; simp only [slice_zero] at hc ⊢; simp [simplify, hc])
+  · simp only [h0, ↓reduceIte] at hp ⊢
+    by_cases h1 : dom = Dom.comment
+    · simp only [h1, ↓reduceIte, show ¬ Dom.comment = Dom.number from by decide, show ¬ Dom.comment = Dom.identifier from by decide]
+      simp only [h1, ↓reduceIte] at hp
+      unfold parseComment at hp
+      cases hf : firstOpen d.comment s 0 with
+      | error er => rw [hf] at hp; cases hp
+      | ok p =>
+        rw [hf] at hp
+        simp only [bind, Except.bind] at hp
+        split at hp <;> (simp only [pure, Except.pure, Except.ok.injEq, Prod.mk.injEq] at hp; obtain ⟨h1, h2⟩ := hp; subst h1 h2; simp [simplify, slice_zero])
+    · simp only [h1, ↓reduceIte] at hp
+      by_cases h2 : dom = Dom.quote
+      · simp only [h2, ↓reduceIte, show ¬ Dom.quote = Dom.number from by decide, show ¬ Dom.quote = Dom.identifier from by decide,
+          show ¬ Dom.quote = Dom.comment from by decide]
+        simp only [h2, ↓reduceIte] at hp
+        unfold parseQuote at hp
+        cases hf : firstOpen d.quote s 0 with
+        | error er => rw [hf] at hp; cases hp
+        | ok p =>
+          rw [hf] at hp
+          simp only [bind, Except.bind] at hp
+          cases hq : quoteLoop s p.2 (0 + p.1.length) s.length (0 + p.1.length) with
+          | error er => rw [hq] at hp; cases hp
+          | ok E =>
+            rw [hq] at hp
+            simp only [] at hp
+            split at hp
+            · cases hp
+            · rename_i c cs hv
+              simp only [pure, Except.pure, Except.ok.injEq, Prod.mk.injEq] at hp
+              obtain ⟨h1', h2'⟩ := hp
+              subst h1' h2'
+              rw [slice_zero] at hv
+              have hhead : s.head? = some c := by
+                cases s with
+                | nil => simp at hv
+                | cons x xs =>
+                  cases E with
+                  | zero => simp at hv
+                  | succ E' => simp at hv; simp [hv.1]
+              simp only [simplify, slice_zero, hhead, Option.some.injEq]
+      · simp only [h2, ↓reduceIte] at hp
+        by_cases h3 : dom = Dom.number
+        · simp only [h3, ↓reduceIte] at hp ⊢
+          unfold parseNumber at hp
+          simp only [Except.ok.injEq, Prod.mk.injEq] at hp
+          obtain ⟨h1', h2'⟩ := hp
+          subst h1' h2'
+          simp [simplify, slice_zero]
+        · simp only [h3, ↓reduceIte] at hp ⊢
+          by_cases h4 : dom = Dom.identifier
+          · simp only [h4, ↓reduceIte] at hp ⊢
+            unfold parseIdentifier at hp
+            simp only [Except.ok.injEq, Prod.mk.injEq] at hp
+            obtain ⟨h1', h2'⟩ := hp
+            subst h1' h2'
+            simp [simplify, slice_zero]
+          · simp only [h4, ↓reduceIte] at hp ⊢
+            simp only [h1, h2, ↓reduceIte]
+            by_cases h5 : dom = Dom.symbol
+            · simp only [h5, ↓reduceIte] at hp
+              have hn0 : ¬ Dom.symbol = Dom.whiteSpace := by decide
+              unfold parseSymbol at hp
+              cases h3c : combined d s 0 3 with
+              | error er => rw [h3c] at hp; cases hp
+              | ok r3 =>
+                rw [h3c] at hp
+                simp only [bind, Except.bind] at hp
+                cases r3 with
+                | some r =>
+                  simp only [pure, Except.pure, Except.ok.injEq] at hp
+                  subst hp
+                  obtain ⟨e1, e2, e3⟩ := combined_kind h3c
+                  subst e1
+                  simp [simplify, e2, e3, h5, Dom.symbol, Dom.whiteSpace, Dom.number, Dom.identifier, Dom.comment, Dom.quote]
+                | none =>
+                  simp only [] at hp
+                  cases h2c : combined d s 0 2 with
+                  | error er => rw [h2c] at hp; cases hp
+                  | ok r2 =>
+                    rw [h2c] at hp
+                    cases r2 with
+                    | some r =>
+                      simp only [pure, Except.pure, Except.ok.injEq] at hp
+                      subst hp
+                      obtain ⟨e1, e2, e3⟩ := combined_kind h2c
+                      subst e1
+                      simp [simplify, e2, e3, h5, Dom.symbol, Dom.whiteSpace, Dom.number, Dom.identifier, Dom.comment, Dom.quote]
+                    | none =>
+                      simp only [] at hp
+                      cases s with
+                      | nil => exact absurd rfl hne
+                      | cons c r =>
+                        have hv : charAt (c :: r) 0 = .ok c := by simp [charAt]
+                        rw [hv] at hp
+                        simp only [] at hp
+                        cases hi : indexOf? c d.symbol with
+                        | none => rw [hi] at hp; cases hp
+                        | some off =>
+                          rw [hi] at hp
+                          simp only [] at hp
+                          cases hty : typeOf d (Dom.symbol * 16 + off) with
+                          | error er => rw [hty] at hp; cases hp
+                          | ok ty =>
+                            rw [hty] at hp
+                            have htyv := typeOf_ok hty
+                            simp only [Nat.zero_add] at hp
+                            by_cases hmin : ty = T.minus
+                            · simp only [hmin, ↓reduceIte] at hp
+                              have hp' : minusTail d c T.minus (c :: r) = .ok (e, t) := hp
+                              obtain ⟨e1, e2⟩ := minusTail_kind d c T.minus r hp'
+                              subst e1
+                              rw [e2]
+                              have hty2 : Dom.symbol * 16 + off = T.minus := by rw [← htyv]; exact hmin
+                              simp only [h5, hi, Option.getD_some, List.headD_cons, hty2, List.drop_one, List.tail_cons, true_and,
+                                show ¬ (1 ≥ 2) from by omega, ↓reduceIte, List.take_succ_cons, List.take_zero,
+                                show ¬ Dom.symbol = Dom.whiteSpace from by decide, show ¬ Dom.symbol = Dom.number from by decide,
+                                show ¬ Dom.symbol = Dom.identifier from by decide, show ¬ Dom.symbol = Dom.comment from by decide,
+                                show ¬ Dom.symbol = Dom.quote from by decide]
+                              cases wsOrEnd d.whiteSpace r <;> simp
+                            · simp only [hmin, ↓reduceIte, pure, Except.pure, Except.ok.injEq, Prod.mk.injEq] at hp
+                              obtain ⟨e1, e2⟩ := hp
+                              subst e1 e2
+                              have hne2 : ¬ Dom.symbol * 16 + off = T.minus := by rw [← htyv]; exact hmin
+                              have h80 : Dom.symbol * 16 + off = 80 + off := by simp [Dom.symbol]
+                              rw [h80] at hne2
+                              simp [simplify, h5, hi, htyv, hne2, Dom.symbol, Dom.whiteSpace, Dom.number, Dom.identifier, Dom.comment, Dom.quote]
+            · simp only [h5, ↓reduceIte] at hp; cases hp
+
+theorem dispatch_unique {d : TokenDef} {s : Str} {dom dom' : Nat} (h : Dispatch d s dom) (h' : Dispatch d s dom') : dom = dom' := by
+  obtain ⟨pre, post, e1, a1, n1⟩ := h
+  obtain ⟨pre', post', e2, a2, n2⟩ := h'
+  rw [e1] at e2
+  clear e1
+  induction pre generalizing pre' with
+  | nil =>
+    cases pre' with
+    | nil => simp at e2; exact e2.1
+    | cons y ys =>
+      simp at e2
+      exact absurd a1 (e2.1 ▸ n2 y (by simp))
+  | cons x xs ih =>
+    cases pre' with
+    | nil =>
+      simp at e2
+      exact absurd a2 (e2.1 ▸ n1 x (by simp))
+    | cons y ys =>
+      simp only [List.cons_append, List.cons.injEq] at e2
+      exact ih (fun z hz => n1 z (by simp [hz])) ys e2.2 (fun z hz => n2 z (by simp [hz]))
+
+theorem mem_slice {s : Str} {c : Char} {k j e : Nat} (h1 : k ≤ j) (h2 : j < e) (hc : s[j]? = some c) : c ∈ slice s k e := by
+  unfold slice
+  apply List.mem_iff_getElem?.mpr
+  refine ⟨j - k, ?_⟩
+  rw [List.getElem?_drop, List.getElem?_take]
+  simp only [show k + (j - k) = j from by omega, h2, ↓reduceIte, hc]
+
+theorem longestRun_unique {a s : Str} {e e' : Nat} (h : LongestRun a s e) (h' : LongestRun a s e') : e = e' := by
+  have key : ∀ {e e' : Nat}, LongestRun a s e → LongestRun a s e' → ¬ e < e' := by
+    intro e e' ⟨_, _, h3⟩ ⟨g1, g2, _⟩ hlt
+    have hlt2 : e < s.length := by omega
+    have hget : s[e]? = some (s[e]'hlt2) := List.getElem?_eq_getElem hlt2
+    have hmem : s[e]'hlt2 ∈ s.take e' := by
+      have := mem_slice (s := s) (k := 0) (Nat.zero_le e) hlt hget
+      rwa [slice_zero] at this
+    have hin := g2 _ hmem
+    rw [drop_eq_cons_of_getElem? hget] at h3
+    simp only [headIn] at h3
+    rw [hin] at h3; cases h3
+  have := key h h'; have := key h' h; omega
+
+theorem comment_end_unique {s : Str} {k e e' : Nat} (hk : k ≤ e) (hk' : k ≤ e')
+    (h1 : '\n' ∉ slice s k e) (h2 : e = s.length ∨ s[e]? = some '\n') (hle : e ≤ s.length)
+    (g1 : '\n' ∉ slice s k e') (g2 : e' = s.length ∨ s[e']? = some '\n') (hle' : e' ≤ s.length) : e = e' := by
+  have key : ∀ {e e' : Nat}, k ≤ e → (e = s.length ∨ s[e]? = some '\n') → '\n' ∉ slice s k e' → e' ≤ s.length → ¬ e < e' := by
+    intro e e' hk h2 g1 hle' hlt
+    cases h2 with
+    | inl h => omega
+    | inr h => exact g1 (mem_slice hk hlt h)
+  have := key hk h2 g1 hle'; have := key hk' g2 h1 hle; omega
+
+theorem symbolMunch_unique {d : TokenDef} {s : Str} {e e' : Nat} (h : SymbolMunch d s e) (h' : SymbolMunch d s e') : e = e' := by
+  rcases h with ⟨a, b⟩ | ⟨a, b, c⟩ | ⟨a, b, c, _⟩ <;> rcases h' with ⟨a', b'⟩ | ⟨a', b', c'⟩ | ⟨a', b', c', _⟩ <;>
+    first | omega | exact absurd b c' | exact absurd b' c | exact absurd b b' | exact absurd b' b | exact absurd b c' | exact absurd b' c
+
+theorem untermEnd_unique {src close : Str} {body E E' : Nat} (h : UntermEnd src close body E) (h' : UntermEnd src close body E') : E = E' := by
+  rcases h with ⟨a, b⟩ | ⟨i, a, b, c, e⟩ <;> rcases h' with ⟨a', b'⟩ | ⟨i', a', b', c', e'⟩
+  · omega
+  · exact absurd b' (b i' a')
+  · exact absurd b (b' i a)
+  · have : ¬ i < i' := fun hl => c i' hl b'
+    have : ¬ i' < i := fun hl => c' i hl b
+    omega
+
+/-- the strengthened specification of the first token: what `TokSpec` says, the type and string of the `kindOf` table,
+    and where an unterminated literal ends -/
+def TokSpec2 (d : TokenDef) (s : Str) (e : Nat) (q : Nat × Str) : Prop :=
+  ∃ dom, Dispatch d s dom ∧ 0 < e ∧ e ≤ s.length ∧ q = kindOf d dom s e ∧
+    ((dom = Dom.whiteSpace ∧ LongestRun d.whiteSpace s e) ∨
+     (dom = Dom.number ∧ LongestRun d.number s e) ∨
+     (dom = Dom.identifier ∧ LongestRun d.identifier s e) ∨
+     (dom = Dom.comment ∧ ∃ p, firstOpen d.comment s 0 = .ok p ∧ p.1.length ≤ e ∧
+        '\n' ∉ slice s p.1.length e ∧ (e = s.length ∨ s[e]? = some '\n')) ∨
+     (dom = Dom.quote ∧ ∃ p, firstOpen d.quote s 0 = .ok p ∧
+        ((∃ idx, IsCloser s p.2 p.1.length idx ∧ (∀ j, p.1.length ≤ j → j < idx → ¬ IsCloser s p.2 p.1.length j) ∧ e = idx + p.2.length) ∨
+         ((∀ j, ¬ IsCloser s p.2 p.1.length j) ∧ UntermEnd s p.2 p.1.length e))) ∨
+     (dom = Dom.symbol ∧ SymbolMunch d s e))
+
+/-- **The specification is functional**: it fixes how many characters the first token takes, its type and its string. -/
+theorem tokSpec2_unique {d : TokenDef} {s : Str} {e e' : Nat} {q q' : Nat × Str} (h : TokSpec2 d s e q) (h' : TokSpec2 d s e' q') :
+    e = e' ∧ q = q' := by
+  obtain ⟨dom, hd, _, hle, hq, hb⟩ := h
+  obtain ⟨dom', hd', _, hle', hq', hb'⟩ := h'
+  have hdom := dispatch_unique hd hd'
+  subst hdom
+  have he : e = e' := by
+    rcases hb with ⟨a, b⟩ | ⟨a, b⟩ | ⟨a, b⟩ | ⟨a, p, b1, b2, b3, b4⟩ | ⟨a, p, b1, b2⟩ | ⟨a, b⟩ <;>
+      rcases hb' with ⟨a', b'⟩ | ⟨a', b'⟩ | ⟨a', b'⟩ | ⟨a', p', c1, c2, c3, c4⟩ | ⟨a', p', c1, c2⟩ | ⟨a', b'⟩ <;>
+      first
+        | (exfalso; rw [a] at a'; revert a'; decide)
+        | exact longestRun_unique b b'
+        | exact symbolMunch_unique b b'
+        | (rw [b1] at c1; injection c1 with c1; subst c1; exact comment_end_unique b2 c2 b3 b4 hle c3 c4 hle')
+        | skip
+    -- string literals
+    rw [b1] at c1; injection c1 with c1; subst c1
+    rcases b2 with ⟨i, x1, x2, x3⟩ | ⟨x1, x2⟩ <;> rcases c2 with ⟨i', y1, y2, y3⟩ | ⟨y1, y2⟩
+    · have : ¬ i < i' := fun hl => y2 i x1.1 hl x1
+      have : ¬ i' < i := fun hl => x2 i' y1.1 hl y1
+      omega
+    · exact absurd x1 (y1 i)
+    · exact absurd y1 (x1 i')
+    · exact untermEnd_unique x2 y2
+  subst he
+  exact ⟨rfl, by rw [hq, hq']⟩
+
+/-- the lexer meets the strengthened specification -/
+theorem step_spec2 {d : TokenDef} (hw : wf d = true) (hwl : wfLayout d = true) {s : Str} (hne : s ≠ []) {e : Nat} {t : Token}
+    (h : step d s = .ok (e, t)) : TokSpec2 d s e (simplify t) := by
+  obtain ⟨dom', hd', hpos, hle, _, hb⟩ := step_spec hw hwl hne h
+  unfold step at h
+  cases hd : analyzeDomain d s 0 with
+  | error er => rw [hd] at h; cases h
+  | ok dom =>
+    rw [hd] at h
+    simp only [bind, Except.bind] at h
+    have hdisp := dispatch_of_analyze hne hd
+    have hdom := dispatch_unique hd' hdisp
+    subst hdom
+    refine ⟨dom', hdisp, hpos, hle, parser_kind hw hne hd h, ?_⟩
+    rcases hb with ⟨a, b⟩ | ⟨a, b⟩ | ⟨a, b, _⟩ | ⟨a, _, p, b1, b2, b3, b4⟩ | ⟨a, p, b1, b2⟩ | ⟨a, b⟩
+    · exact Or.inl ⟨a, b⟩
+    · exact Or.inr (Or.inl ⟨a, b⟩)
+    · exact Or.inr (Or.inr (Or.inl ⟨a, b⟩))
+    · exact Or.inr (Or.inr (Or.inr (Or.inl ⟨a, p, b1, b2, b3, b4⟩)))
+    · refine Or.inr (Or.inr (Or.inr (Or.inr (Or.inl ⟨a, p, b1, ?_⟩))))
+      cases b2 with
+      | inl hc => exact Or.inl hc
+      | inr hno =>
+        have hpq : parseQuote d s 0 = .ok (e, t) := by
+          unfold parser at h
+          simpa [a, Dom.quote, Dom.whiteSpace, Dom.comment] using h
+        exact Or.inr ⟨hno, parseQuote_unterm hw hpq b1 hno⟩
+    · exact Or.inr (Or.inr (Or.inr (Or.inr (Or.inr ⟨a, b⟩))))
+
+/-- the strengthened description of the whole raw token sequence (types and strings) -/
+inductive LexSpec2 (d : TokenDef) : Str → List (Nat × Str) → Prop
+  | nil : LexSpec2 d [] []
+  | cons {s : Str} {e : Nat} {q : Nat × Str} {L : List (Nat × Str)} :
+      s ≠ [] → TokSpec2 d s e q → LexSpec2 d (s.drop e) L → LexSpec2 d s (q :: L)
+
+theorem lexS_spec2 {d : TokenDef} (hw : wf d = true) (hwl : wfLayout d = true) : ∀ (n : Nat) (s : Str) (L : List (Nat × Str)),
+    s.length ≤ n → lexS d s = .ok L → LexSpec2 d s L
+  | 0, s, L, hn, h => by
+    have : s = [] := List.eq_nil_of_length_eq_zero (by omega)
+    subst this
+    rw [lexS_nil] at h; injection h with h; subst h
+    exact .nil
+  | n + 1, s, L, hn, h => by
+    by_cases hne : s = []
+    · subst hne
+      rw [lexS_nil] at h; injection h with h; subst h
+      exact .nil
+    · rw [lexS_unfold hw s hne] at h
+      cases hs : step d s with
+      | error e => rw [hs] at h; cases h
+      | ok res =>
+        obtain ⟨e, t⟩ := res
+        rw [hs] at h
+        simp only [] at h
+        cases hr : lexS d (s.drop e) with
+        | error er => rw [hr] at h; simp [Except.map] at h
+        | ok L' =>
+          rw [hr] at h
+          simp only [Except.map, Except.ok.injEq] at h
+          subst h
+          have hspec := step_spec2 hw hwl hne hs
+          obtain ⟨_, _, hpos, _, _, _⟩ := hspec
+          exact .cons hne (step_spec2 hw hwl hne hs) (lexS_spec2 hw hwl n _ _ (by simp; omega) hr)
+
+/-- **spec ⊆ lex.** At most one token sequence satisfies the specification. -/
+theorem lexSpec2_unique {d : TokenDef} {s : Str} {L L' : List (Nat × Str)} (h : LexSpec2 d s L) (h' : LexSpec2 d s L') : L = L' := by
+  induction h generalizing L' with
+  | nil =>
+    cases h' with
+    | nil => rfl
+    | cons hne _ _ => exact absurd rfl hne
+  | @cons s e q L hne hspec _ ih =>
+    cases h' with
+    | nil => exact absurd rfl hne
+    | @cons _ e' q' L'' _ hspec' hrest' =>
+      obtain ⟨he, hq⟩ := tokSpec2_unique hspec hspec'
+      subst he hq
+      rw [ih hrest']
+
+/-! ### computing the `TokPrefix` evidence: a checker and its soundness -/
+
+/-- decidable form of `HeadOK` -/
+def headOKb (d : TokenDef) (dom : Nat) (t : Token) (r r' : Str) : Bool :=
+  (dom != Dom.whiteSpace || !headIn d.whiteSpace r' || headIn d.whiteSpace r) &&
+  (dom != Dom.number || !headIn d.number r' || headIn d.number r) &&
+  (dom != Dom.identifier || !headIn d.identifier r' || headIn d.identifier r) &&
+  (dom != Dom.comment || nlOrEnd r') &&
+  (t.type != T.minus || wsOrEnd d.whiteSpace r == wsOrEnd d.whiteSpace r')
+
+theorem headOKb_sound {d : TokenDef} {dom : Nat} {t : Token} {r r' : Str} (h : headOKb d dom t r r' = true) : HeadOK d dom t r r' := by
+  simp only [headOKb, Bool.and_eq_true, Bool.or_eq_true, bne_iff_ne, ne_eq, Bool.not_eq_true', beq_iff_eq] at h
+  obtain ⟨⟨⟨⟨h1, h2⟩, h3⟩, h4⟩, h5⟩ := h
+  refine ⟨?_, ?_, ?_, ?_, ?_⟩
+  · intro hd hr
+    rcases h1 with (h | h) | h
+    · exact absurd hd h
+    · rw [h] at hr; cases hr
+    · exact h
+  · intro hd hr
+    rcases h2 with (h | h) | h
+    · exact absurd hd h
+    · rw [h] at hr; cases hr
+    · exact h
+  · intro hd hr
+    rcases h3 with (h | h) | h
+    · exact absurd hd h
+    · rw [h] at hr; cases hr
+    · exact h
+  · intro hd
+    cases h4 with
+    | inl h => exact absurd hd h
+    | inr h => exact h
+  · intro ht
+    cases h5 with
+    | inl h => exact absurd ht h
+    | inr h => exact h
+
+/-- lex the prefix `a` of `a ++ r` token by token and check what `TokPrefix` demands (literals terminated, the last token
+    tolerating the continuation `r'`); `some ta` = the raw tokens of `a` up to source maps -/
+def tokPrefixCheck (d : TokenDef) (r r' : Str) : Nat → Str → Option (List (Nat × Str))
+  | _, [] => some []
+  | 0, _ :: _ => none
+  | f + 1, c :: cs =>
+    match analyzeDomain d (c :: cs ++ r) 0 with
+    | .ok dom =>
+      match parser d dom (c :: cs ++ r) 0 with
+      | .ok (e, t) =>
+        if 0 < e ∧ e ≤ (c :: cs).length ∧ (dom ≠ Dom.quote ∨ quoteClosed d (c :: cs ++ r) = true) ∧
+            ((c :: cs).drop e ≠ [] ∨ headOKb d dom t r r' = true) then
+          (tokPrefixCheck d r r' f ((c :: cs).drop e)).map (fun ta => simplify t :: ta)
+        else none
+      | .error _ => none
+    | .error _ => none
+
+theorem tokPrefixCheck_sound {d : TokenDef} {r r' : Str} : ∀ (f : Nat) (a : Str) (ta : List (Nat × Str)),
+    tokPrefixCheck d r r' f a = some ta → TokPrefix d r r' a ta
+  | f, [], ta, h => by
+    cases f <;> (simp only [tokPrefixCheck, Option.some.injEq] at h; subst h; exact .nil)
+  | 0, c :: cs, ta, h => by simp [tokPrefixCheck] at h
+  | f + 1, c :: cs, ta, h => by
+    unfold tokPrefixCheck at h
+    cases hd : analyzeDomain d (c :: cs ++ r) 0 with
+    | error er => rw [hd] at h; cases h
+    | ok dom =>
+      rw [hd] at h
+      simp only [] at h
+      cases hp : parser d dom (c :: cs ++ r) 0 with
+      | error er => rw [hp] at h; cases h
+      | ok res =>
+        obtain ⟨e, t⟩ := res
+        rw [hp] at h
+        simp only [] at h
+        split at h
+        · rename_i hc
+          obtain ⟨hpos, hle, hq, hlast⟩ := hc
+          cases hrec : tokPrefixCheck d r r' f ((c :: cs).drop e) with
+          | none => rw [hrec] at h; cases h
+          | some ta' =>
+            rw [hrec] at h
+            simp only [Option.map_some, Option.some.injEq] at h
+            subst h
+            have ih := tokPrefixCheck_sound f _ _ hrec
+            have hsplit : (c :: cs).take e ++ (c :: cs).drop e = c :: cs := List.take_append_drop e _
+            have hlen : ((c :: cs).take e).length = e := by rw [List.length_take]; omega
+            have hsrc : (c :: cs).take e ++ ((c :: cs).drop e ++ r) = c :: cs ++ r := by
+              rw [← List.append_assoc, hsplit]
+            have := TokPrefix.cons (d := d) (r := r) (r' := r') (x := (c :: cs).take e) (a := (c :: cs).drop e) (dom := dom) (t := t) (ta := ta')
+              (by intro hnil; have := congrArg List.length hnil; rw [hlen] at this; simp at this; omega)
+              (by rw [hsrc]; exact hd) (by rw [hsrc, hlen]; exact hp)
+              (fun hdq => by
+                rw [hsrc]
+                cases hq with
+                | inl h => exact absurd hdq h
+                | inr h => exact h)
+              (fun hnil => by
+                cases hlast with
+                | inl h => exact absurd hnil h
+                | inr h => exact headOKb_sound h)
+              ih
+            rwa [hsplit] at this
+        · cases h
+
+theorem headIn_dropWhile (a : Str) : ∀ (s : Str), headIn a (s.dropWhile (fun c => a.contains c)) = false
+  | [] => rfl
+  | c :: cs => by
+    cases h : a.contains c
+    · simp only [List.dropWhile, h, headIn]
+    · simp only [List.dropWhile, h]; exact headIn_dropWhile a cs
+
+/-- `src` with `w` inserted at offset `pos` — the syntactic description of the search's blank / blank-line rewrites -/
+def insertAt (src : Str) (pos : Nat) (w : Str) : Str := src.take pos ++ (w ++ src.drop pos)
+
+/-- decidable side check for inserting white space `w` at `pos`: `pos` is a token boundary of whole, terminated tokens whose
+    last one tolerates white space; `w` is white space, without newline unless the white space run at `pos` has one; the
+    rest lexes -/
+def blankInsertOK (d : TokenDef) (src : Str) (pos : Nat) (w : Str) : Bool :=
+  let a := src.take pos
+  let rest := src.drop pos
+  let run := rest.takeWhile (fun c => d.whiteSpace.contains c)
+  let r1 := rest.dropWhile (fun c => d.whiteSpace.contains c)
+  !w.isEmpty && w.all (fun c => d.whiteSpace.contains c) && (Str.count '\n' w == 0 || Str.count '\n' run != 0) &&
+  (tokPrefixCheck d (run ++ r1) (w ++ (run ++ r1)) a.length a).isSome &&
+  (match lexS d r1 with | .ok _ => true | .error _ => false)
+
+/-- **Blanks / blank lines, by position.** Whenever the decidable check passes, inserting `w` at `pos` leaves
+    `Tokenizer.parse` unchanged up to source maps. -/
+theorem layout_blank_at {d : TokenDef} (hr : layoutReady d) (src : Str) (pos : Nat) (w : Str) (h : blankInsertOK d src pos w = true) :
+    (tokenize d src).map (List.map simplify) = (tokenize d (insertAt src pos w)).map (List.map simplify) := by
+  simp only [blankInsertOK, Bool.and_eq_true, Bool.not_eq_true', List.all_eq_true, Bool.or_eq_true, beq_iff_eq, bne_iff_ne, ne_eq] at h
+  obtain ⟨⟨⟨⟨h1, h2⟩, h3⟩, h4⟩, h5⟩ := h
+  have hsplit : (src.drop pos).takeWhile (fun c => d.whiteSpace.contains c) ++ (src.drop pos).dropWhile (fun c => d.whiteSpace.contains c) = src.drop pos :=
+    List.takeWhile_append_dropWhile
+  generalize hrun : (src.drop pos).takeWhile (fun c => d.whiteSpace.contains c) = run at h3 h4 hsplit
+  generalize hr1 : (src.drop pos).dropWhile (fun c => d.whiteSpace.contains c) = r1 at h4 h5 hsplit
+  have hrunall : ∀ c ∈ run, d.whiteSpace.contains c = true := by
+    intro c hc; rw [← hrun] at hc; exact takeWhile_all _ _ c hc
+  have hr1h : headIn d.whiteSpace r1 = false := by rw [← hr1]; exact headIn_dropWhile _ _
+  obtain ⟨ta, hta⟩ := Option.isSome_iff_exists.mp h4
+  have hpre := tokPrefixCheck_sound _ _ _ hta
+  cases hL : lexS d r1 with
+  | error e => rw [hL] at h5; cases h5
+  | ok L1 =>
+    have hwne : w ≠ [] := by intro e; rw [e] at h1; simp at h1
+    have := layout_blank hr (src.take pos) run r1 w hwne h2 h3 hrunall hr1h hpre hL
+    have e1 : src.take pos ++ (run ++ r1) = src := by rw [hsplit]; exact List.take_append_drop pos src
+    rw [e1] at this
+    unfold insertAt
+    rw [← hsplit]
+    exact this
+
+def firstOpenIs (d : TokenDef) (s : Str) (p : Str × Str) : Bool :=
+  match firstOpen d.comment s 0 with
+  | .ok q => q = p
+  | .error _ => false
+
+theorem firstOpenIs_sound {d : TokenDef} {s : Str} {p : Str × Str} (h : firstOpenIs d s p = true) : firstOpen d.comment s 0 = .ok p := by
+  unfold firstOpenIs at h
+  cases hf : firstOpen d.comment s 0 with
+  | error e => rw [hf] at h; cases h
+  | ok q => rw [hf] at h; simp at h; rw [h]
+
+/-- decidable side check for a trailing comment `w ++ opener ++ body` inserted at `pos` (a line end) -/
+def commentInsertOK (d : TokenDef) (src : Str) (pos : Nat) (w body : Str) (p : Str × Str) : Bool :=
+  let a := src.take pos
+  let r := src.drop pos
+  !w.isEmpty && w.all (fun c => d.whiteSpace.contains c) && Str.count '\n' w == 0 &&
+  firstOpenIs d (p.1 ++ body ++ r) p && !body.contains '\n' && nlOrEnd r &&
+  (tokPrefixCheck d r (w ++ (p.1 ++ body ++ r)) a.length a).isSome &&
+  (match lexS d r with | .ok _ => true | .error _ => false)
+
+/-- **Trailing comment, by position.** -/
+theorem layout_comment_at {d : TokenDef} (hr : layoutReady d) (src : Str) (pos : Nat) (w body : Str) (p : Str × Str)
+    (h : commentInsertOK d src pos w body p = true) :
+    (tokenize d src).map (List.map simplify) = (tokenize d (insertAt src pos (w ++ (p.1 ++ body)))).map (List.map simplify) := by
+  simp only [commentInsertOK, Bool.and_eq_true, Bool.not_eq_true', List.all_eq_true, beq_iff_eq] at h
+  obtain ⟨⟨⟨⟨⟨⟨⟨h1, h2⟩, h3⟩, h4⟩, h5⟩, h6⟩, h7⟩, h8⟩ := h
+  obtain ⟨ta, hta⟩ := Option.isSome_iff_exists.mp h7
+  have hpre := tokPrefixCheck_sound _ _ _ hta
+  cases hL : lexS d (src.drop pos) with
+  | error e => rw [hL] at h8; cases h8
+  | ok L =>
+    have hwne : w ≠ [] := by intro e; rw [e] at h1; simp at h1
+    have hb : '\n' ∉ body := by simpa using h5
+    have := layout_comment hr (src.take pos) w body (src.drop pos) p hwne h2 h3 (firstOpenIs_sound h4) hb h6 hpre hL
+    rw [List.take_append_drop] at this
+    unfold insertAt
+    simpa [List.append_assoc] using this
+
+/-- decidable side check for a comment-only line `⏎ ind opener body` inserted at `pos` (a line end followed by a newline) -/
+def commentLineInsertOK (d : TokenDef) (src : Str) (pos : Nat) (ind body : Str) (p : Str × Str) : Bool :=
+  let a := src.take pos
+  let rest := src.drop pos
+  let nlrun := rest.takeWhile (fun c => d.whiteSpace.contains c)
+  let r1 := rest.dropWhile (fun c => d.whiteSpace.contains c)
+  ind.all (fun c => d.whiteSpace.contains c) && d.whiteSpace.contains '\n' && nlOrEnd nlrun && !nlrun.isEmpty &&
+  firstOpenIs d (p.1 ++ body ++ (nlrun ++ r1)) p && !body.contains '\n' &&
+  (tokPrefixCheck d (nlrun ++ r1) (('\n' :: ind) ++ (p.1 ++ body ++ (nlrun ++ r1))) a.length a).isSome &&
+  (match lexS d r1 with | .ok _ => true | .error _ => false)
+
+/-- **Comment-only line, by position.** -/
+theorem layout_comment_line_at {d : TokenDef} (hr : layoutReady d) (src : Str) (pos : Nat) (ind body : Str) (p : Str × Str)
+    (h : commentLineInsertOK d src pos ind body p = true) :
+    (tokenize d src).map (List.map simplify)
+      = (tokenize d (insertAt src pos (('\n' :: ind) ++ (p.1 ++ body)))).map (List.map simplify) := by
+  simp only [commentLineInsertOK, Bool.and_eq_true, Bool.not_eq_true', List.all_eq_true] at h
+  obtain ⟨⟨⟨⟨⟨⟨⟨h1, h2⟩, h3⟩, h4⟩, h5⟩, h6⟩, h7⟩, h8⟩ := h
+  have hsplit : (src.drop pos).takeWhile (fun c => d.whiteSpace.contains c) ++ (src.drop pos).dropWhile (fun c => d.whiteSpace.contains c) = src.drop pos :=
+    List.takeWhile_append_dropWhile
+  generalize hrun : (src.drop pos).takeWhile (fun c => d.whiteSpace.contains c) = nlrun at h3 h4 h5 h7 hsplit
+  generalize hr1 : (src.drop pos).dropWhile (fun c => d.whiteSpace.contains c) = r1 at h5 h7 h8 hsplit
+  have hrunall : ∀ c ∈ nlrun, d.whiteSpace.contains c = true := by
+    intro c hc; rw [← hrun] at hc; exact takeWhile_all _ _ c hc
+  have hr1h : headIn d.whiteSpace r1 = false := by rw [← hr1]; exact headIn_dropWhile _ _
+  obtain ⟨ta, hta⟩ := Option.isSome_iff_exists.mp h7
+  have hpre := tokPrefixCheck_sound _ _ _ hta
+  cases hL : lexS d r1 with
+  | error e => rw [hL] at h8; cases h8
+  | ok L1 =>
+    have hne : nlrun ≠ [] := by intro e; rw [e] at h4; simp at h4
+    have hb : '\n' ∉ body := by simpa using h6
+    have := layout_comment_line hr (src.take pos) ind body nlrun r1 p h1 h2 hrunall h3 hne hr1h (firstOpenIs_sound h5) hb hpre hL
+    have e1 : src.take pos ++ (nlrun ++ r1) = src := by rw [hsplit]; exact List.take_append_drop pos src
+    rw [e1] at this
+    unfold insertAt
+    rw [← hsplit]
+    simpa [List.append_assoc] using this
+
 end Tranp.Lexer
